@@ -202,8 +202,7 @@ def check(run):
     for k in (0, len(cases) // 3, len(cases) - 2):
         run.sample({"case": cases[k][:200], "why": why[k], "model": mo[k][:160], "impl": io[k][:160]})
     report_diffs(run, diffs, "coq/Codec.v (tag_loop)", "the decode loop generated by #[derive(Zvt)]", "codec")
-    if any(not v.get("no_failing_input_found") for v in run.violations):
-        run.violations = [v for v in run.violations if not v.get("no_failing_input_found")]
+    vlib.prefer_concrete(run)
     return vlib.finish(run, trusted_base=TB, assumptions=["generated (non-shipped) struct types are covered by C12's derive_gen programs"])
 
 
